@@ -175,4 +175,18 @@ def jobs(tier: str, seed: int) -> list[dict]:
     out.append(dict(name='F7S/n8/streets-played', module='harness.c06', fn='h_deal', traced=False,
                     params=dict(code='F7S', n=8, sym_decisions=2, manual='auto', draw_masks=False, which='deal'),
                     budget_s=B, must_cover=['done', 'fallback']))
+    # pot-limit "up to the pot" counts the chips a player abandoned by folding in the same round (3 players)
+    for script in ('rf', 'rrf', 'cr'):
+        out.append(dict(name=f'PO/n3/{script}/pot-after-a-fold', fn='h_variant',
+                        params=dict(code='PO', n=3, depth=len(script) + 1, script=script,
+                                    fixed={'0': 1000, '1': 1000, '2': 1000}),
+                        budget_s=B, must_cover=['done', 'probed'], prio=8))
+    # cards per street of every variant, dealt in any number of dealing operations (C10 dealing oracle from the
+    # Street tuples, DOC table fixes the tuples): hole/board counts per street, board slots, draws
+    for code, n in (('NT', 2), ('PO', 2), ('FO8', 2), ('NS', 2), ('FT', 3), ('F7S', 2), ('FR', 2), ('F7S8', 2),
+                    ('N2L1D', 2), ('F2L3D', 2), ('FB', 2)):
+        out.append(dict(name=f'{code}/n{n}/cards-per-street/any-dealing-counts', module='harness.c06', fn='h_deal', traced=False,
+                        params=dict(code=code, n=n, sym_decisions=0, manual='counts', which='deal', count_budget=6,
+                                    mask_budget=1, boards=2 if code == 'PO' else 1),
+                        budget_s=B, must_cover=['done']))
     return out
